@@ -268,11 +268,18 @@ def query_classes(pop, q):
         cl.add("type-filter-repeated")
     if len(idf) > 1:
         cl.add("id-filter-repeated")
+    for f in tf + idf:
+        # value shapes the operator is not "meant" for (still evaluated as Python evaluates them)
+        if f["op"] in ("=", "!=") and isinstance(f["value"], list):
+            cl.add("type-or-id:%s-with-list-value" % f["op"])
+        if f["op"] == "in" and isinstance(f["value"], str):
+            cl.add("type-or-id:in-with-text-value")
+    usual = lambda f: isinstance(f["value"], list) == (f["op"] == "in")
     if tf and idf:
         cl.add("type-and-id-filters")
-        allowed = [set([f["value"]] if f["op"] == "=" else f["value"]) for f in tf if f["op"] in ("=", "in")]
+        allowed = [set([f["value"]] if f["op"] == "=" else f["value"]) for f in tf if f["op"] in ("=", "in") and usual(f)]
         for f in idf:
-            if f["op"] in ("=", "in") and allowed:
+            if f["op"] in ("=", "in") and allowed and usual(f):
                 for v in ([f["value"]] if f["op"] == "=" else f["value"]):
                     if any(v.split("--")[0] not in a for a in allowed):
                         cl.add("id-contradicts-type-filter")
